@@ -202,15 +202,28 @@ fn add_transaction<'ctx>(
     // which must be deduced later. And that should appear at most once.
     #[cfg(okane_verif)]
     crate::verif::emit(|| format!("{{\"ev\":\"txn\",\"date\":\"{}\",\"n\":{}}}", txn.date, txn.posts.len()));
-    let mut postings = bcc::Vec::with_capacity_in(txn.posts.len(), ctx.arena);
+    let mut postings: bcc::Vec<Posting<'ctx>> =
+        bcc::Vec::with_capacity_in(txn.posts.len(), ctx.arena);
     let mut unfilled: Option<Tracked<usize>> = None;
+    let mut deferred: Vec<DeferredAssertion<'ctx>> = Vec::new();
     let mut balance = Amount::default();
     for (i, posting) in txn.posts.iter().enumerate() {
         let posting_span = posting.span();
         let posting = posting.as_undecorated();
         let account = ctx.accounts.ensure(posting.account.as_undecorated());
-        let (evaluated, price_event) = match process_posting(ctx, bal, txn.date, account, posting)?
-        {
+        // An assertion on the account of the posting to be deduced can only be checked
+        // once that amount is known.
+        let deduced_later = unfilled
+            .as_ref()
+            .is_some_and(|u| postings[*u.as_undecorated()].account == account);
+        let (evaluated, price_event) = match process_posting(
+            ctx,
+            bal,
+            txn.date,
+            account,
+            posting,
+            deduced_later.then_some(&mut deferred),
+        )? {
             (Some(x), y) => (x, y),
             (None, y) => {
                 if let Some(first) = unfilled.replace(Tracked::new(i, posting_span.clone())) {
@@ -274,6 +287,9 @@ fn add_transaction<'ctx>(
         // Note that deduced amount can be multi-commodity, neither SingleAmount nor PostingAmount.
         let deduced: Amount = balance.negate();
         postings[u].amount = deduced.clone();
+        for assertion in deferred {
+            assertion.check(&deduced)?;
+        }
         bal.add_amount(postings[u].account, deduced);
         #[cfg(okane_verif)]
         crate::verif::emit(|| {
@@ -312,6 +328,7 @@ fn process_posting<'ctx>(
     date: NaiveDate,
     account: super::Account<'ctx>,
     posting: &syntax::tracked::Posting,
+    deferred: Option<&mut Vec<DeferredAssertion<'ctx>>>,
 ) -> Result<(Option<EvaluatedPosting<'ctx>>, Option<PriceEvent<'ctx>>), BookKeepError> {
     match (&posting.amount, &posting.balance) {
         // posting with just `Account`, we need to deduce from other postings.
@@ -342,14 +359,15 @@ fn process_posting<'ctx>(
                     .as_undecorated()
                     .eval_mut(ctx)?
                     .try_into()?;
-                let diff = current.assert_balance(&expected);
-                if !diff.is_absolute_zero() {
-                    return Err(BookKeepError::BalanceAssertionFailure {
-                        account_span: posting.account.span(),
-                        balance_span: balance_constraints.span(),
-                        computed: format!("{}", current.as_inline_display()),
-                        diff: format!("{}", diff.as_inline_display()),
-                    });
+                let assertion = DeferredAssertion {
+                    account_span: posting.account.span(),
+                    balance_span: balance_constraints.span(),
+                    current: current.clone(),
+                    expected,
+                };
+                match deferred {
+                    Some(deferred) => deferred.push(assertion),
+                    None => assertion.check(&Amount::zero())?,
                 }
             }
             let balance_delta = computed.calculate_balance_amount()?;
@@ -362,6 +380,34 @@ fn process_posting<'ctx>(
                 posting_price_event(date, &computed)?,
             ))
         }
+    }
+}
+
+/// Balance assertion of a posting, with the account balance right after the posting.
+/// It's kept until the amount to be deduced in the same account is known.
+struct DeferredAssertion<'ctx> {
+    account_span: TrackedSpan,
+    balance_span: TrackedSpan,
+    current: Amount<'ctx>,
+    expected: PostingAmount<'ctx>,
+}
+
+impl DeferredAssertion<'_> {
+    /// Checks the assertion, given the amount not yet added to the balance.
+    fn check(self, pending: &Amount<'_>) -> Result<(), BookKeepError> {
+        let mut current = self.current;
+        current += pending.clone();
+        current.remove_zero_entries();
+        let diff = current.assert_balance(&self.expected);
+        if diff.is_absolute_zero() {
+            return Ok(());
+        }
+        Err(BookKeepError::BalanceAssertionFailure {
+            account_span: self.account_span,
+            balance_span: self.balance_span,
+            computed: format!("{}", current.as_inline_display()),
+            diff: format!("{}", diff.as_inline_display()),
+        })
     }
 }
 
